@@ -825,13 +825,15 @@ fn main() {
     let mut drv = if args.driver.to_str() == Some("none") || args.driver.as_os_str().is_empty() { None } else { Some(Driver::spawn(&args.driver).expect("spawn driver")) };
     let known: Vec<String> = args.extra.get("known").map(|s| s.split(',').map(|x| x.to_string()).collect()).unwrap_or_default();
     let mut sum = Summary::new("C21", &args,
-        "real .mv2 files built through the public API in a child process (1-6 frames, optional embeddings, tombstones, one or two commits, \
+        "real .mv2 files built through the public API in a child process (1-6 notes, optional embeddings, tombstones, one or two commits, \
+         in 'rich' shapes also a chunked document (payload-less parent + chunk frames), a no_raw put and a payload-reusing update, \
          optionally leaked with 1-4 acknowledged uncommitted WAL records), damaged in one structure located through the header/TOC \
          (header footer_offset: 6 wrong values, header toc_checksum byte, TOC checksum byte, footer magic/len/hash/generation byte, \
          time / Tantivy / vec index segment) or, outside the quantifier, in two structures or the WAL region; Memvid::doctor with each of \
          the 32 option combinations in a child process, followed by verify(deep) + open on copies, a second run with the same options \
          and one with default options; every report (status, plan, phase statuses, failure reason), verify/open result and active \
-         frame list compared with the Lean model fed the abstract condition; non-trivial = damaged or crash-left file; \
+         frame list compared with the Lean model fed the abstract condition; oracle: the canonical payload digest of EVERY active frame \
+         (id, uri; documents reassembled from chunks) after each doctor run equals what opening the undamaged file shows; non-trivial = damaged or crash-left file; \
          distinct = shape + damage + options");
     sum.expect_branches(&["crash-left-pending", "fault-hdr-ptr", "fault-hdr-tocsum", "fault-toc-sum", "fault-footer-magic", "fault-footer-hash",
         "fault-index-time", "fault-index-lex", "fault-index-vec", "dry-run", "vacuum", "vacuum-over-empty-payload-frames", "forced-rebuild", "status-healed", "status-clean", "oracle-held"]);
